@@ -34,8 +34,8 @@ def memEntries (l : List (GoBytes × GoBytes)) : String :=
   if l.isEmpty then "[]" else
   String.intercalate ";" (l.map fun e => goBytesToStr e.1 ++ "=" ++ goBytesToStr e.2)
 
-def memRun (a : Args) : String :=
-  match (splitList (a.getD "prog" "")).mapM memOp? with
+def memRunOne (progStr : String) : String :=
+  match (splitList progStr).mapM memOp? with
   | none => "bad-op"
   | some prog =>
     let (rs, m) := run MemStore.empty prog
@@ -47,5 +47,9 @@ def memRun (a : Args) : String :=
       | none => "wild"
     "res=" ++ String.intercalate "," (rs.map memResStr) ++ " iter=" ++ it ++ " size=" ++ toString m.sl.size ++
       " est=" ++ toString m.est ++ " flush=" ++ fl false ++ " flusht=" ++ fl true
+
+/-- several programs may be sent in one line, separated by `|`; the answers come back separated by ` | ` -/
+def memRun (a : Args) : String :=
+  String.intercalate " | " (((a.getD "prog" "").splitOn "|").map memRunOne)
 
 end SST.Drv
